@@ -376,13 +376,14 @@ def vmap_lane_randomness(ctx, rule="SHAPE-lanes"):
     # evaluated on model operands: (dummy, leaf0, leaf1) flattened from the site's own call f(leaf0, leaf1) / f(leaf0, kw=leaf1)
     from ..absint import Model, Opq, Unknown, TreeDef
     import itertools
-    for batched, size, kind, nconst in itertools.product((True, False), (True, False), ("args", "kwargs"), (0, 1)):
+    none_bad = False
+    for batched, size, kind, nconst in itertools.product((True, False), (True, False), ("args", "kwargs", "args_none"), (0, 1)):
         consts = ("keyless-const",) * nconst
         try:
             got, seen_sdl, rebound = eval_handle_modular_vmap(ev, s.ret, batched, size, kind, nconst)
         except Unknown as e:
             raise AnalysisError(f"{dotted}: cannot evaluate [batched={batched}, axis_size={size}, {kind}, {nconst} consts]: {e}")
-        when = f"[operands batched={batched}, axis_size given={size}, site called with {'keyword' if kind == 'kwargs' else 'positional'} parameters, {nconst} closed-over constant(s)]"
+        when = f"[operands batched={batched}, axis_size given={size}, site called with {'keyword' if kind == 'kwargs' else ('positional parameters after a None placeholder' if kind == 'args_none' else 'positional')} parameters, {nconst} closed-over constant(s)]"
         outer = () if batched else ((5,) if size else ())
         if not (isinstance(got, tuple) and len(got) == 2):
             ck.fail("returns (outvals, out_axes)", f"{when} found {got!r}")
@@ -395,8 +396,10 @@ def vmap_lane_randomness(ctx, rule="SHAPE-lanes"):
         cfg, a_, k_ = rebound[0]
         if cfg != Opq("config-with-shape", outer + (2,)):
             ck.fail("re-bound with sample_shape = outer batch dim + site sample_shape on the dummy-stripped operands", f"{when} new config {cfg!r}; expected sample_shape {outer + (2,)!r}")
-        want_a, want_k = (("leaf0", "leaf1"), {}) if kind == "args" else (("leaf0",), {"kw": "leaf1"})
-        if (tuple(a_), dict(k_)) != (want_a, want_k):
+        want_a, want_k = {"args": (("leaf0", "leaf1"), {}), "kwargs": (("leaf0",), {"kw": "leaf1"}), "args_none": ((None, "leaf0", "leaf1"), {})}[kind]
+        if (tuple(a_), dict(k_)) != (want_a, want_k) and kind == "args_none":
+            none_bad = True
+        elif (tuple(a_), dict(k_)) != (want_a, want_k):
             ck.fail("re-bound on the site's own (args, kwargs) rebuilt from the flat operands",
                     f"{when} the re-bound sampler is called with {tuple(a_)!r}, {dict(k_)!r} instead of {want_a!r}, {want_k!r}: under modular_vmap keyword "
                     "parameters reach the distribution positionally, in flattening order, and constants closed over by the sampler are passed as extra arguments; "
@@ -405,6 +408,15 @@ def vmap_lane_randomness(ctx, rule="SHAPE-lanes"):
         if not (isinstance(got[1], (tuple, list)) and list(got[1]) == [want_ax]):
             ck.fail("out axis 0 whenever the lanes are batched or axis_size is given (never a broadcast single draw)", f"{when} found {got[1]!r}")
     ck.done()
+    # a positional argument that is not a single leaf (a None placeholder, a pytree) keeps its position only if the positional call is
+    # rebuilt with the recorded tree structure as well (its own obligation: one finding, however many situations show it)
+    if none_bad:
+        ctx.bad(rule, "pjax.VmapBatchHandler._handle_modular_vmap (positional structure)", "positional arguments rebuilt with the call's tree structure",
+                "a site called positionally is re-bound on its flat leaves: f(None, p) is re-bound as f(p), so the parameter moves one position to the left "
+                "(geometric.sample(None, 0.02) under modular_vmap / repeat draws with logits=0.02 instead of probs=0.02, while the un-vectorised site and logpdf use probs)",
+                func_loc(ctx, PJ + "VmapBatchHandler._handle_modular_vmap"))
+    else:
+        ctx.ok(rule, "pjax.VmapBatchHandler._handle_modular_vmap (positional structure)", "a None placeholder keeps its position")
     # with_sample_shape copies every other field of the config
     dotted = PJ + "SamplerConfig.with_sample_shape"
     s = summarize(ctx, ev, dotted)
